@@ -132,6 +132,37 @@ static Verdict check_static(const Case& c) {
   return v;
 }
 
+// C02: every container overload of the free conversion functions agrees, slot by slot, with the plain scalar Convert
+static const char* kShape[] = {"scalar", "std::array", "std::vector", "PlanarVector", "Vector", "SymmetricDyad", "Dyad"};
+static const char* kForm[] = {"Convert", "ConvertInPlace", "ConvertStatically"};
+static Verdict check_containers(const Case& c) {
+  const int k = (int)c.i[0], nt = (int)c.i[1], shape = (int)c.i[2], form = (int)c.i[3];
+  const VfUnitType* U = utype(nt, k);
+  int from = (int)(c.i[4] % U->n), to = (int)(c.i[5] % U->n);
+  int n = shape == 0 ? 1 : shape == 1 ? 1 + (int)(c.i[6] % 9) : shape == 2 ? (int)(c.i[6] % 18) : shape == 3 ? 2 : shape == 4 ? 3 : shape == 5 ? 6 : 9;
+  if (form == 2) { if (shape == 1) n = 3; if (c.i[6] % 2) from = U->standard; else to = U->standard; }
+  std::vector<LD> in(c.r.begin(), c.r.begin() + n), out((size_t)n + 1), after((size_t)n + 1);
+  const int got = U->convert_container(shape, form, in.data(), n, from, to, out.data(), after.data());
+  if (got == -1) return Verdict::skip("form-not-applicable");
+  const std::string what = fmt("%s of %s (%d values) for %s %s -> %s in %s", kForm[form], kShape[shape], n, U->name, U->unit_names[from], U->unit_names[to], ntinfo(nt).name);
+  if (got != n) return Verdict::fail(what + fmt(": %d values came back", got));
+  long bitequal = 0, checked = 0;
+  for (int i = 0; i < n; i++) {
+    const LD ref = U->convert(in[(size_t)i], from, to);
+    if (form != 1 && !same_bits(nt, after[(size_t)i], in[(size_t)i])) return Verdict::fail(what + fmt(": the copying form modified its argument: slot %d was %s, is %s", i, hexld(in[(size_t)i]).c_str(), hexld(after[(size_t)i]).c_str()));
+    if (!std::isfinite(ref) || (ref != 0 && std::fabs(ref) < std::ldexp((LD)1, ntinfo(nt).emin + 1))) continue;
+    checked++;
+    if (same_bits(nt, out[(size_t)i], ref)) { bitequal++; continue; }
+    const double e = err_ulps(nt, out[(size_t)i], (Q)ref, (Q)ref);
+    if (!(e <= 1.0)) return Verdict::fail(what + fmt(": slot %d is %s, the scalar Convert of that slot (%s) gives %s (%.3g ulp, allowed 1)", i, hexld(out[(size_t)i]).c_str(), hexld(in[(size_t)i]).c_str(), hexld(ref).c_str(), e));
+  }
+  Verdict V; V.cls = std::string(ntinfo(nt).name) + ";" + kShape[shape] + ";" + kForm[form] + (bitequal == checked ? ";bit-equal" : ";within-1ulp");
+  bool distinct = true; for (int i = 0; i < n; i++) for (int j = i + 1; j < n; j++) if (in[(size_t)i] == in[(size_t)j]) distinct = false;
+  V.nontrivial = n >= 2 && distinct && from != to;
+  V.show = what;
+  return V;
+}
+
 // exponent window per (unit type, numeric type): wide, the per-pair range check discards what leaves the normal range
 static rc::Gen<Case> gen_case(int inst, int ntypes) {
   const int k = inst % ntypes, nt = inst / ntypes;
@@ -178,6 +209,16 @@ int main(int argc, char** argv) {
     s.run = [](const Case& c) { return check_pairs(c, true); };
     s.instance_name = iname;
     s.rule = "Convert(x, u, u) for every declared unit u: bit-identical for the standard unit, within 2 ulp (scale max(|x|, |offset|/factor)) otherwise; non-trivial: x != 0";
+    subs.push_back(s);
+  }
+  {
+    Sub s; s.name = "c02.containers"; s.property = "C02"; s.instances = ntypes * 3; s.n_quick = 400; s.n_thorough = 20000; s.run = check_containers; s.instance_name = iname;
+    s.gen = [ntypes](int inst) { const int k = inst % ntypes, nt = inst / ntypes; const int w = nt == 0 ? 12 : 100;
+      return rc::gen::map(rc::gen::tuple(irange(0, 6), irange(0, 2), irange(0, 1000), irange(0, 1000), irange(0, 1000), gen_reals(18, nt, -w, w, kNeg | kZero)),
+                          [=](const std::tuple<int, int, int, int, int, std::vector<LD>>& t) { Case c; c.i = {k, nt, std::get<0>(t), std::get<1>(t), std::get<2>(t), std::get<3>(t), std::get<4>(t)}; c.r = std::get<5>(t); return c; }); };
+    s.rule = "every unit type x numeric type; generated: container shape (scalar in place, std::array<1..9>, std::vector of 0..17 elements, PlanarVector, Vector, SymmetricDyad, Dyad), form (copying, in-place, compile-time), unit pair and "
+             "distinct slot values; oracle: every slot within 1 ulp of (normally bit-equal to) the plain scalar Convert of that slot, the number of values is preserved, copying forms leave their argument bitwise unchanged; "
+             "non-trivial: >= 2 distinct slots and from != to";
     subs.push_back(s);
   }
   return engine_main(argc, argv, subs);
